@@ -13,10 +13,15 @@
 -/
 import Mathlib.Tactic.NormNum
 import Mathlib.Tactic.Positivity
+import Mathlib.Tactic.Linarith
+import Mathlib.Algebra.Order.Field.Basic
 import Mathlib.Analysis.Real.Sqrt
 import Ladybug.Model.Proj
+import Ladybug.Model.DomeObj
+import Ladybug.Gen.CompassSetters
 import Ladybug.Proofs.C20Lemmas
 import Ladybug.Proofs.C20Field
+import Ladybug.Proofs.C20Hist
 
 namespace Dome
 
@@ -270,6 +275,31 @@ theorem C20_weights_proportional (twoPi : α) (s : Nat → α) (h0 : s 0 = 0) (r
   show (patchAreas twoPi s rows).map (fun p => p / (twoPi / ((patchAreas twoPi s rows).length : α))) = _
   rw [hl, C20_areas_are_solid_angles twoPi s h0 rows]
 
+omit [CharZero α] in
+/-- Radial dome: the areas behind `dome_radial_patch_weights` are exactly the true solid angles of the
+generated `az × alt` cells (rows at the sines `s`, `s 0 = 0`), so the weights are those solid angles / 2π. -/
+theorem C20_radial_areas_are_solid_angles (twoPi : α) (s : Nat → α) (h0 : s 0 = 0) (az alt : Nat) :
+    radialAreas twoPi s az alt = trueRadialAngles twoPi s az alt 0 ∧
+    radialWeights twoPi s az alt = (trueRadialAngles twoPi s az alt 0).map (· / twoPi) := by
+  have h := rowsAreas_replicate_eq twoPi s h0 az alt 0
+  exact ⟨h, by simp only [radialWeights, radialAreas, h]⟩
+
+/-- Sphere and horizontal band: `sphere_patch_weights` are the dome weights twice, hence proportional (same
+constant) to the true solid angles of the dome patches and of their mirror images; the band weights are the
+true solid angles of the first `k` patches divided by their mean, for the upper and the mirrored lower band. -/
+theorem C20_sphere_and_band_weights_proportional (twoPi : α) (s : Nat → α) (h0 : s 0 = 0) (rows : List Nat)
+    (k : Nat) :
+    sphereWeights twoPi s rows =
+      (trueSolidAngles twoPi s rows 0 ++ trueSolidAngles twoPi s rows 0).map
+        (· / (twoPi / ((rows.sum + 1 : Nat) : α))) ∧
+    offsetWeights twoPi s rows k =
+      (let rel := (trueSolidAngles twoPi s rows 0).take k
+       let avg := sumL rel / (rel.length : α)
+       rel.map (· / avg) ++ rel.map (· / avg)) := by
+  constructor
+  · simp only [sphereWeights, C20_weights_proportional twoPi s h0 rows, List.map_append]
+  · simp only [offsetWeights, C20_areas_are_solid_angles twoPi s h0 rows]
+
 /-- Radial dome: the `az × alt` cell areas add up to `2π·s alt`; with `s alt = sin(π/2) = 1` that is the
 hemisphere, and `dome_radial_patch_weights` (areas / 2π) then **sum** to one (this function normalises the
 sum, not the mean — as the repository's own test asserts), one weight per cell also for `alt = 1`. -/
@@ -308,6 +338,42 @@ theorem C20_offset_weights (twoPi : α) (s : Nat → α) (rows : List Nat) (k : 
   ring
 
 end Areas
+
+section Pos
+variable {α : Type} [Field α] [LinearOrder α] [IsStrictOrderedRing α]
+
+/-- Every patch has a positive area and a positive weight (no patch is empty, none is counted negatively):
+rows of positive counts, row sines strictly increasing from the horizon (`s 0 = sin 0 = 0`) and below `1` at
+the top ring — which is what the generated meshes have (`layout` correspondence: row `i` at `i·π / d`,
+`d > 2·rows`). With `C20_solid_angle_sum`: the positive patch areas add up to the hemisphere, i.e. the patches
+tile it. -/
+theorem C20_areas_pos (twoPi : α) (htp : 0 < twoPi) (s : Nat → α) (h0 : s 0 = 0)
+    (hs : ∀ i, s i < s (i + 1)) (rows : List Nat) (hr : ∀ c ∈ rows, 0 < c) (hne : rows ≠ [])
+    (htop : s rows.length < 1) :
+    (∀ a ∈ patchAreas twoPi s rows, 0 < a) ∧ (∀ w ∈ domeWeights twoPi s rows, 0 < w) := by
+  have hlen : rows.length ≠ 0 := by simpa using hne
+  have hA : ∀ a ∈ patchAreas twoPi s rows, 0 < a := by
+    intro a ha
+    simp only [patchAreas, List.mem_append, List.mem_singleton] at ha
+    rcases ha with ha | rfl
+    · exact rowsAreas_pos twoPi htp s h0 hs rows hr 0 a ha
+    · simp only [capAt, hlen, if_false]
+      have : 0 < 1 - s rows.length := by linarith
+      positivity
+  refine ⟨hA, ?_⟩
+  intro w hw
+  simp only [domeWeights, List.mem_map] at hw
+  obtain ⟨a, ha, rfl⟩ := hw
+  have hl : (0 : α) < ((patchAreas twoPi s rows).length : α) := by
+    have : 0 < (patchAreas twoPi s rows).length := by simp [patchAreas]
+    exact_mod_cast this
+  exact div_pos (hA a ha) (div_pos htp hl)
+
+end Pos
+
+example : ∀ a ∈ patchAreas (6 : ℚ) (fun i => (i : ℚ) / 8) [2, 1], 0 < a :=
+  (C20_areas_pos 6 (by norm_num) _ (by norm_num) (fun i => by push_cast; linarith) [2, 1]
+    (by decide) (by simp) (by norm_num)).1
 
 example : (patchAreas (6 : ℚ) (fun i => (i : ℚ) / 8) [2, 1]).sum = 6 := by
   simp [patchAreas, rowsAreas, capAt]; norm_num
@@ -407,7 +473,156 @@ theorem C20_lazy_counts :
 example : lazyReadSeq LState.empty [.tDomeMeshHi, .tDomeVec] =
     [some (.domeMesh 3 true), some (.domeVec 1 false)] := by decide
 
+/-! ### Histories on one `ViewSphere` (round 3): reads, calls, refused calls, edited results -/
+
+section History
+variable {C E R : Type} (ans : C → Except E R)
+
+/-- **History refines fresh.** After *any* history of property reads, calls of the plain methods (answered
+or refused) and edits of returned lists on one `ViewSphere` — started on a fresh object, on the module
+singleton, or on any object whose slots are empty or correctly filled — every observation (each of the eleven
+properties, each method with each argument list) equals the observation on a fresh object. -/
+theorem C20_history_refines_fresh (st : Obj) (h : LazyInv st) (ops : List (Op C)) (o : Op C) :
+    observe ans (runState ans st ops) o = observe ans LState.empty o :=
+  observe_of_inv ans _ (runState_inv ans st h ops) o
+
+/-- … step by step: the observations of a whole history are those of its steps, each on a fresh object. -/
+theorem C20_history_outs (st : Obj) (h : LazyInv st) (ops : List (Op C)) :
+    runOuts ans st ops = ops.map (observe ans LState.empty) := by
+  induction ops generalizing st with
+  | nil => rfl
+  | cons o rest ih =>
+    simp only [runOuts, List.map_cons]
+    rw [ih _ (step_inv ans st h o)]
+    exact congrArg (· :: _) (observe_of_inv ans st h o)
+
+/-- **Refused operations preserve.** A call that raises (wrong argument type, zero / negative counts, `nan`
+offsets, a single altitude row …) leaves the object exactly as it was — as does every answered call and every
+edit of a returned list: only getters write, and only into slots. Hence every later observation is unchanged. -/
+theorem C20_refused_preserves (st : Obj) (o : Op C) (hr : (step ans st o).2.isRefused = true) :
+    (step ans st o).1 = st ∧ ∀ o', observe ans (step ans st o).1 o' = observe ans st o' := by
+  have hst : (step ans st o).1 = st := by
+    cases o with
+    | read p => simp [step, Out.isRefused] at hr
+    | call c => simp only [step]; split <;> rfl
+    | scribble => rfl
+    | renew => simp [step, Out.isRefused] at hr
+  exact ⟨hst, fun o' => by rw [hst]⟩
+
+/-- Calls and edits never change the object (refused or not). -/
+theorem C20_call_preserves (st : Obj) (c : C) :
+    (step ans st (.call c)).1 = st ∧ (step ans st (.scribble : Op C)).1 = st := by
+  refine ⟨?_, rfl⟩
+  simp only [step]; split <;> rfl
+
+/-- **Reads are pure / order independence.** On a well-formed object, what a step shows is the same before
+and after any other step (so the same question asked twice has the same answer), and permuting a history
+permutes its observations. -/
+theorem C20_read_pure (st : Obj) (h : LazyInv st) (a b : Op C) :
+    observe ans (step ans st a).1 b = observe ans st b ∧
+    observe ans (step ans st a).1 a = observe ans st a := by
+  have h' := step_inv ans st h a
+  exact ⟨by rw [observe_of_inv ans _ h' b, observe_of_inv ans st h b],
+         by rw [observe_of_inv ans _ h' a, observe_of_inv ans st h a]⟩
+
+theorem C20_history_order_independent (st : Obj) (h : LazyInv st) (ops ops' : List (Op C))
+    (hp : ops.Perm ops') : (runOuts ans st ops).Perm (runOuts ans st ops') := by
+  rw [C20_history_outs ans st h, C20_history_outs ans st h]
+  exact hp.map _
+
+end History
+
+/-- The statement's counts hold after **any** history: whatever was read, called, refused or edited before on
+the object (or on earlier objects), `dome_patches(n, in_place)` answers with `144 n² + 1` vectors and
+`144 n² + 6 n` faces, `sphere_patches` with twice as many, `dome_radial_patches(az, alt)` with `az · alt`
+cells (`n ≥ 1`, `az ≥ 1`, `alt ≥ 2`). -/
+theorem C20_history_counts (st : Obj) (h : LazyInv st) (ops : List (Op ShapeCall)) (n : Int) (hn : 1 ≤ n)
+    (ip : Bool) (az alt : Nat) (haz : 1 ≤ az) (halt : 2 ≤ alt) :
+    (∃ m, observe shapeAns (runState shapeAns st ops) (.call (.dome n ip)) = .result m ∧
+      m.vectorCount = 144 * n.toNat ^ 2 + 1 ∧ m.faces.length = 144 * n.toNat ^ 2 + 6 * n.toNat) ∧
+    (∃ m, observe shapeAns (runState shapeAns st ops) (.call (.sphere n ip)) = .result m ∧
+      m.vectorCount = 2 * (144 * n.toNat ^ 2 + 1)) ∧
+    (∃ m, observe shapeAns (runState shapeAns st ops) (.call (.radial az alt)) = .result m ∧
+      m.vectorCount = az * alt ∧ m.faces.length = az * alt) := by
+  simp only [C20_history_refines_fresh shapeAns st h ops]
+  obtain ⟨d, hd, hv, hf, _⟩ := C20_dome_shape n hn ip
+  obtain ⟨d', sp, hd', hs, hsv, _⟩ := C20_sphere n hn ip
+  obtain ⟨r, hr, hrv, hrf⟩ := C20_radial az alt haz halt
+  refine ⟨⟨d, ?_, ?_, hf⟩, ⟨sp, ?_, ?_⟩, ⟨r, ?_, hrv, hrf⟩⟩
+  · simp [observe, step, shapeAns, hd]
+  · rw [hv, C20_count n hn]
+  · simp [observe, step, shapeAns, hs]
+  · rw [hsv, C20_count n hn]
+  · simp [observe, step, shapeAns, hr]
+
+-- non-vacuity: a history with a refused call in the middle, on concrete answers
+example : runOuts (fun (n : Nat) => if n = 0 then (.error "zero" : Except String Nat) else .ok (144 * n * n + 1))
+    LState.empty [.call 0, .read .tDomeMeshHi, .call 2, .scribble, .read .tDomeVec, .renew, .call 2] =
+    [.refused "zero", .content (some (.domeMesh 3 true)), .result 577, .unit,
+     .content (some (.domeVec 1 false)), .unit, .result 577] := by
+  simp [runOuts, step, LState.read, LState.empty, LState.assign, LazyProp.slot, LazyProp.writes]
+
 end Dome
+
+/-! ### One `Compass`: setters and the projected altitude circles (round 3) -/
+
+namespace CompassObj
+
+/-- With the repaired setters (validate, then store) a refused assignment leaves the compass as it was. -/
+theorem C20_compass_refused_preserves_repaired {α : Type} [Add α] [Sub α] [Mul α] [Div α] [OfNat α 0]
+    [OfNat α 1] [LT α] [DecidableLT α] (alts : List (α × α)) (st : St α) (o : Op α)
+    (hr : (stepRepaired alts st o).2.isRefused = true) : (stepRepaired alts st o).1 = st := by
+  cases o <;> simp only [stepRepaired, step] at hr ⊢
+  all_goals first
+    | rfl
+    | (split <;> simp_all [Out.isRefused])
+    | (simp [Out.isRefused] at hr)
+
+/-- The configured step is the code as pinned (store, then assert) for `false false` and the repaired one
+(assert, then store) for `true true`; the driver runs it with the flags the translator reads from compass.py. -/
+theorem C20_compass_cfg {α : Type} [Add α] [Sub α] [Mul α] [Div α] [OfNat α 0] [OfNat α 1] [LT α]
+    [DecidableLT α] (alts : List (α × α)) (st : St α) (o : Op α) :
+    stepCfg false false alts st o = step alts st o ∧ stepCfg true true alts st o = stepRepaired alts st o := by
+  cases o <;> exact ⟨rfl, rfl⟩
+
+/-- For the tree under check: if its setters validate first (flags regenerated from compass.py on every run),
+a refused assignment leaves the compass as it was. (On the pinned tree the flags are `false`: see
+`C20_compass_refused_counterexample`.) -/
+theorem C20_compass_refused_preserves_current {α : Type} [Add α] [Sub α] [Mul α] [Div α] [OfNat α 0]
+    [OfNat α 1] [LT α] [DecidableLT α] (alts : List (α × α)) (st : St α) (o : Op α)
+    (h1 : Gen.Compass.radiusValidatesFirst = true) (h2 : Gen.Compass.spacingValidatesFirst = true)
+    (hr : (stepCfg Gen.Compass.radiusValidatesFirst Gen.Compass.spacingValidatesFirst alts st o).2.isRefused
+      = true) :
+    (stepCfg Gen.Compass.radiusValidatesFirst Gen.Compass.spacingValidatesFirst alts st o).1 = st := by
+  rw [h1, h2] at hr ⊢
+  rw [(C20_compass_cfg alts st o).2] at hr ⊢
+  exact C20_compass_refused_preserves_repaired alts st o hr
+
+/-- Reads never change the compass, and what they show is a function of the public state alone (there is no
+hidden slot): a compass that went through any history shows what a fresh compass with the same radius and
+center shows. -/
+theorem C20_compass_history_refines_fresh {α : Type} [Add α] [Sub α] [Mul α] [Div α] [OfNat α 0]
+    [OfNat α 1] [LT α] [DecidableLT α] (alts : List (α × α)) (st : St α) (ops : List (Op α)) :
+    let fin := runState (step alts) st ops
+    (step alts fin .readStereo).1 = fin ∧ (step alts fin .readOrtho).1 = fin ∧
+    (step alts fin .readStereo).2 = (step alts ⟨fin.radius, fin.cx, fin.cy, st.north, st.spacing⟩ .readStereo).2 ∧
+    (step alts fin .readOrtho).2 = (step alts ⟨fin.radius, fin.cx, fin.cy, st.north, st.spacing⟩ .readOrtho).2 :=
+  ⟨rfl, rfl, rfl, rfl⟩
+
+/-- Known finding C20-compass-refused-setter-keeps-value: as the code is (store, then assert), the refused
+assignment `radius = -5` changes the compass, and the altitude circles that could be read before can no
+longer be read. -/
+theorem C20_compass_refused_counterexample :
+    let alts : List (Int × Int) := [(1, 0)]
+    let st : St Int := ⟨100, 0, 0, 0, 1⟩
+    (step alts st .readStereo).2 = .circles 0 0 [100] ∧
+    (step alts st (.setRadius (-5))).2 = .refused .assert ∧
+    (step alts st (.setRadius (-5))).1 ≠ st ∧
+    (step alts (step alts st (.setRadius (-5))).1 .readStereo).2 = .refused .assert ∧
+    (stepRepaired alts (stepRepaired alts st (.setRadius (-5))).1 .readStereo).2 = .circles 0 0 [100] := by
+  decide
+
+end CompassObj
 
 /-! ### Projections (over the reals) -/
 
@@ -508,6 +723,35 @@ theorem C20_sun_position_2d (vx vy vz r ox oy : ℝ) (hr : 0 < r)
     refine ⟨k * r, by positivity, ?_, ?_⟩
     · simp only [position2dStereo, position3d] at h1 ⊢; rw [h1]; ring
     · simp only [position2dStereo, position3d] at h2 ⊢; rw [h2]; ring
+
+/-- Consumers of the projections, `Compass.stereographic_altitude_circles` / `orthographic_altitude_circles`:
+the tabulated radius `point3d_to_stereographic((cos a, 0, sin a), 1).x · R` (resp. `R · cos a`) is exactly
+the distance from the compass center of the projected point of altitude `a` on the compass's own sphere
+(radius `R`, origin the center), it is non-negative and inside the compass circle. -/
+theorem C20_compass_circles_are_projected_rings (R cx cy c s : ℝ) (hR : 0 < R)
+    (hu : c ^ 2 + s ^ 2 = 1) (hc : 0 ≤ c) (hs : 0 ≤ s) :
+    (stereo (cx + R * c) cy (R * s) R cx cy 0).1 - cx = (stereo c 0 s 1 0 0 0).1 * R ∧
+    (stereo (cx + R * c) cy (R * s) R cx cy 0).2 = cy ∧
+    0 ≤ (stereo c 0 s 1 0 0 0).1 * R ∧ (stereo c 0 s 1 0 0 0).1 * R ≤ R ∧
+    (ortho (cx + R * c) cy (R * s)).1 - cx = R * c ∧ R * c ≤ R := by
+  have h1 : (0 : ℝ) < 1 + s := by linarith
+  have hR' : R ≠ 0 := ne_of_gt hR
+  have hc1 : c ≤ 1 := by nlinarith [sq_nonneg s, sq_nonneg (c - 1)]
+  have hfrac : c / (1 + s) ≤ 1 := by rw [div_le_one h1]; linarith
+  have hfrac0 : 0 ≤ c / (1 + s) := div_nonneg hc (le_of_lt h1)
+  refine ⟨?_, ?_, ?_, ?_, ?_, ?_⟩
+  · simp only [stereo]
+    have e : R + (R * s - 0) = R * (1 + s) := by ring
+    have h1' : (1 : ℝ) + (s - 0) = 1 + s := by ring
+    rw [show cx + R * c - cx = R * c by ring, e, h1']
+    have h1ne : (1 : ℝ) + s ≠ 0 := ne_of_gt h1
+    field_simp
+    ring
+  · simp only [stereo]; simp
+  · simp only [stereo, sub_zero, mul_one, add_zero]; exact mul_nonneg hfrac0 (le_of_lt hR)
+  · simp only [stereo, sub_zero, mul_one, add_zero]; nlinarith
+  · simp only [ortho]; ring
+  · nlinarith
 
 example : stereo (0 : ℝ) 100 0 100 0 0 0 = (0, 100) := by simp [stereo]
 example : stereoInv (0 : ℝ) 100 100 0 0 0 = (0, 100, 0) := by simp [stereoInv]; norm_num
